@@ -110,6 +110,20 @@ impl Bundle<FrameContext<'_>> for Frame {
     type Error = crate::Error;
 
     fn parse(bitstream: &mut Bitstream, ctx: FrameContext) -> Result<Self> {
+        Self::parse_inner(bitstream, ctx, false)
+    }
+}
+
+impl Frame {
+    /// Parses the preview frame of the image.
+    ///
+    /// The preview frame has the dimensions given by the preview header of the image, not those
+    /// of the image itself.
+    pub fn parse_preview(bitstream: &mut Bitstream, ctx: FrameContext) -> Result<Self> {
+        Self::parse_inner(bitstream, ctx, true)
+    }
+
+    fn parse_inner(bitstream: &mut Bitstream, ctx: FrameContext, is_preview: bool) -> Result<Self> {
         let FrameContext {
             image_header,
             tracker,
@@ -119,7 +133,14 @@ impl Bundle<FrameContext<'_>> for Frame {
 
         bitstream.zero_pad_to_byte()?;
         let base_offset = bitstream.num_read_bits() / 8;
-        let header = FrameHeader::parse(bitstream, &image_header)?;
+        let mut header = FrameHeader::parse(bitstream, &image_header)?;
+        if is_preview && !header.have_crop {
+            if let Some(preview) = &image_header.metadata.preview {
+                header.width = preview.width;
+                header.height = preview.height;
+            }
+        }
+        let header = header;
 
         let width = header.width as u64;
         let height = header.height as u64;
